@@ -20,6 +20,8 @@ Helpers == <<
   [h |-> T1(I(1)), b |-> True], [h |-> T1(I(2)), b |-> True], [h |-> T1(I(3)), b |-> True],
   [h |-> R2(a, I(1)), b |-> True], [h |-> R2(b, I(2)), b |-> True], [h |-> R2(c, I(3)), b |-> True],
   [h |-> C2("u", X, Y), b |-> Conj(Q1(X), R2(X, Y))],
+  [h |-> C1("v", V("U")), b |-> True],
+  [h |-> C2("w", X, Y), b |-> Conj(T1(I(1)), Conj(Eq(X, a), Eq(Y, A("second"))))],
   [h |-> C3("app", Nil, X, X), b |-> True],
   [h |-> C3("app", Cons(V("H"), V("T")), Y, Cons(V("H"), V("R"))), b |-> C3("app", V("T"), Y, V("R"))],
   [h |-> C2("len", Nil, I(0)), b |-> True],
@@ -65,6 +67,16 @@ CB == IF Tier = "quick" THEN ClausesBQ ELSE ClausesB
 
 Queries == { P1(X) }
 
+(* family F: a variable that first occurs in the body and is still unbound is passed to the last call of several  *)
+(* arms of a clause-final disjunction (unsafe-variable handling across branches), the callees allocate their own    *)
+(* environments, and the predicate is called from a clause that keeps an environment (tp/1).                        *)
+ArmsF == { R2(Y, X), C2("u", Y, X), Conj(T1(I(1)), R2(Y, X)), Conj(Q1(Z), C2("u", Y, X)), Eq(X, Y), Conj(T1(I(1)), C2("w", Y, X)) }
+PreF == { C1("v", Y), True, Q1(Z) }
+BodiesF == { Conj(pre, Disj(a1, a2)) : pre \in PreF, a1 \in ArmsF, a2 \in ArmsF }
+           \cup { Conj(pre, Disj(a1, Disj(a2, a3))) : pre \in {C1("v", Y)}, a1 \in ArmsF, a2 \in ArmsF, a3 \in {R2(Y, X), C2("u", Y, X), C2("w", Y, X)} }
+           \cup { Conj(pre, Ite(Q1(Z), a1, a2)) : pre \in {C1("v", Y)}, a1 \in ArmsF, a2 \in ArmsF }
+ProgsF == { << [h |-> P1(X), b |-> bd], [h |-> C1("tp", X), b |-> Conj(P1(X), T1(I(1)))] >> : bd \in BodiesF }
+
 (* ---- random construction for simulation mode ----                                        *)
 (* every operator takes a dummy argument: TLC caches the value of zero-arity definitions,     *)
 (* which would freeze RandomElement to a single draw.                                         *)
@@ -109,7 +121,8 @@ Init == m = [phase |-> "gen"]
 Gen ==
   /\ m.phase = "gen"
   /\ IF Mode = "exh"
-     THEN \E ca \in ClausesA : \E q \in Queries :
+     THEN \/ \E pf \in ProgsF : m' = Load(pf \o Helpers, {}, C1("tp", X))
+          \/ \E ca \in ClausesA : \E q \in Queries :
             \/ m' = Load(<<ca>> \o Helpers, {}, q)
             \/ \E cb \in CB : m' = Load(<<ca, cb>> \o Helpers, {}, q) \/ m' = Load(<<cb, ca>> \o Helpers, {}, q)
      ELSE m' = Load(RProgram(1) \o Helpers, {<<"p2", 2>>}, RQuery(1))
